@@ -224,6 +224,11 @@ func main() {
 			cmd.Stderr = &werr
 			out, err := cmd.Output()
 			if err != nil || !strings.Contains(string(out), "racepass-done") {
+				// a crash of the code under test in the free-running pass is a verdict, not a harness error
+				if (strings.Contains(werr.String(), "gocoin/lib/btc.") || strings.Contains(werr.String(), "gocoin/lib/script.")) && (strings.Contains(werr.String(), "fatal error") || strings.Contains(werr.String(), "panic:")) {
+					r.Report("concurrent/free-running-crash", "the free-running pass crashed inside gocoin: "+explore.Short(werr.String(), 1200), map[string]interface{}{"gomaxprocs": procs})
+					continue
+				}
 				ev.HarnessError("race pass failed: %v %s", err, explore.Short(werr.String(), 800))
 			}
 			raceRuns += iters * len(assigns)
